@@ -513,9 +513,9 @@ func runCFL(o *hx.Opts, rnd *hx.Rand, res *hx.Result) {
 	header := "From Coq Require Import List NArith ZArith Bool.\nFrom Verif Require Import model.Lang model.Engine model.Persist model.PersistCorr.\nImport ListNotations.\nOpen Scope N_scope.\nDefinition cases : list pcase := ["
 	for i := 0; i < n; i++ {
 		r := rnd.Fork(fmt.Sprintf("cfl%d", i))
-		a := genAssets(r, GenCfg{})
+		a := genAssets(r, GenCfg{Long: i%4 != 0})
 		h := &History{Assets: a, Trigger: genTrigger(r, a)}
-		for k, nops := 0, r.Intn(8); k < nops; k++ {
+		for k, nops := 0, r.Range(1, 8); k < nops; k++ {
 			h.Ops = append(h.Ops, genOp(r))
 		}
 		sc := h.scenario(i, int64(o.Seed)*100019+int64(i))
